@@ -117,9 +117,25 @@ def run(ctx):
     sets.append(Set1(P1.gen_files(rng, 3), 99))
     sets.append(Set1(P1.gen_files(rng, 12, allow_big=False), 4))
     sets.append(Set1([("only.bin", L.gen_content(rng, "random", 20000)), ("empty.dat", b"")], 2))
+    boundary = Set1([("k16383", L.gen_content(rng, "random", 16383)), ("k16384", L.gen_content(rng, "random", 16384)),
+                     ("k16385", L.gen_content(rng, "random", 16385))], 3)
+    sets.append(boundary)
     create_all(ctx, vh, model, sets, report)
     cases = []
+    if boundary.created is not None:
+        for n, d in boundary.files:
+            p = boundary.paths[n]
+            for kind, nd in (("append", d + b"x"), ("append-many", d + L.gen_content(rng, "random", 300)), ("flip-last", d[:-1] + bytes([d[-1] ^ 1])),
+                             ("flip-at-16384", d[:16384] + bytes([d[16384] ^ 1]) + d[16385:] if len(d) > 16384 else None),
+                             ("truncate-1", d[:-1]), ("flip-first", bytes([d[0] ^ 1]) + d[1:])):
+                if nd is None:
+                    continue
+                fs = dict(boundary.created); fs[p] = nd
+                cases.append({"set": boundary, "desc": "16KiB boundary: %s %s" % (n, kind), "fs": fs, "mode": "mem", "nontrivial": True,
+                              "vline": P1.line_verify("mem", boundary.index, True, fs), "rline": P1.line_repair("mem", boundary.index, False, fs)})
     for s in sets:
+        if s is boundary:
+            continue
         if s.created is None:
             report("PAR1 Create failed on a valid set", {"class": {"op": "create"}}, True)
             continue
@@ -357,6 +373,13 @@ def c19_part(ctx, vh, model, report, extra):
         muts.append(("volume.count=%d" % v, arch(vols={1: P1.volume_bytes(E, H, 1, par[0], count=v)})))
         muts.append(("index.volnumber=%d" % v, arch(index=P1.volume_bytes(E, H, v, b""))))
         muts.append(("volume.volnumber=%d" % v, arch(vols={1: P1.volume_bytes(E, H, v, par[0])})))
+    # pairs: file count together with the header's own size fields (a bound taken from the header instead of the input)
+    for cnt in (1 << 31, 1 << 57, (1 << 64) - 1):
+        for flb_ in (0, 1 << 40, (1 << 63), (1 << 64) - 96, (1 << 64) - 1):
+            muts.append(("index.count=%d+filelistbytes=%d" % (cnt, flb_), arch(index=P1.volume_bytes(E, H, 0, b"", count=cnt, flb=flb_))))
+            muts.append(("volume.count=%d+filelistbytes=%d" % (cnt, flb_), arch(vols={1: P1.volume_bytes(E, H, 1, par[0], count=cnt, flb=flb_)})))
+    for db in (0, 1, 1 << 63, (1 << 64) - 1):
+        muts.append(("volume.databytes-field=%d" % db, arch(vols={1: P1.volume_bytes(E, H, 1, par[0], databytes=db)})))
     for v in (0, 0x5F, 0x61, 1 << 63):
         muts.append(("index.filelistoffset=%d" % v, arch(index=P1.volume_bytes(E, H, 0, b"", flo=v))))
     for v in (0, 0x00010001, 0x00020000, (7 << 32) | 0x00010000):
